@@ -12,12 +12,12 @@ import (
 )
 
 type Ctx struct {
-	Prop   string
-	Tier   string
-	Seed   uint64
-	Out    string
-	Only   string // "file:index" replay selector (unused by most drivers)
-	Rng    *gal.Rng
+	Prop     string
+	Tier     string
+	Seed     uint64
+	Out      string
+	Only     string // "file:index" replay selector (unused by most drivers)
+	Rng      *gal.Rng
 	Thorough bool
 }
 
